@@ -581,6 +581,8 @@ theorem emitNode_line (env : Env) (ln : FLine) (l c d : Nat) (b : Bool) (h : ln.
     simp [FScalar.value, emitNode, emitAssignment, emitValue, forceQuote, leadingLines, FLine.text, FScalar.text]
   | null =>
     simp [FScalar.value, emitNode, emitAssignment, emitValue, forceQuote, leadingLines, FLine.text, FScalar.text]
+  | int i =>
+    simp [FScalar.value, emitNode, emitAssignment, emitValue, forceQuote, leadingLines, FLine.text, FScalar.text]
 
 mutual
 theorem emitNode_tree (env : Env) : ∀ (t : TNode) (n : Node) (d : Nat) (b : Bool), t.Matches n → t.EmitOK →
@@ -749,6 +751,7 @@ def FScalar.tv : FScalar → TT × TVal
   | .bare s => (.identifier, .str s)
   | .bool b => (.boolean, .bool b)
   | .null => (.null, .none)
+  | .int i => (.number, .int i)
 
 def indentShape (d : Nat) : List (TT × TVal) := if d = 0 then [] else [(.indent, .nat (2 * d))]
 
@@ -793,14 +796,14 @@ theorem treeDocToks_tv (name : Str) (nodes : List TNode) :
   simp only [List.map_cons, List.map_append, treeToks_tv, List.map_nil]
   rfl
 
-/-- no token carries `normFrom` or `raw`. -/
-def Token.Plain (t : Token) : Prop := t.normFrom = none ∧ t.raw = none
+/-- no token was normalised (NUMBER tokens carry their lexeme in `raw`, which is not a rewrite). -/
+def Token.Plain (t : Token) : Prop := t.normFrom = none
 
 theorem indentToks_plain (d l : Nat) : ∀ t ∈ indentToks d l, t.Plain := by
   unfold indentToks
   split
   · simp
-  · intro t ht; simp only [List.mem_singleton] at ht; subst ht; exact ⟨rfl, rfl⟩
+  · intro t ht; simp only [List.mem_singleton] at ht; subst ht; exact rfl
 
 mutual
 theorem TNode.toks_plain : ∀ (n : TNode) (d l : Nat), ∀ t ∈ n.toks d l, t.Plain
@@ -808,17 +811,17 @@ theorem TNode.toks_plain : ∀ (n : TNode) (d l : Nat), ∀ t ∈ n.toks d l, t.
     simp only [TNode.toks, FLine.toksAt, List.mem_append, List.mem_cons, List.mem_nil_iff, or_false] at ht
     rcases ht with h | h | h | h | h
     · exact indentToks_plain d l t h
-    · subst h; exact ⟨rfl, rfl⟩
-    · subst h; exact ⟨rfl, rfl⟩
-    · subst h; cases ln.v <;> exact ⟨rfl, rfl⟩
-    · subst h; exact ⟨rfl, rfl⟩
+    · subst h; exact rfl
+    · subst h; exact rfl
+    · subst h; cases ln.v <;> exact rfl
+    · subst h; exact rfl
   | .block key cs, d, l, t, ht => by
     simp only [TNode.toks, headerToks, List.mem_append, List.mem_cons, List.mem_nil_iff, or_false] at ht
     rcases ht with (h | h | h | h) | h
     · exact indentToks_plain d l t h
-    · subst h; exact ⟨rfl, rfl⟩
-    · subst h; exact ⟨rfl, rfl⟩
-    · subst h; exact ⟨rfl, rfl⟩
+    · subst h; exact rfl
+    · subst h; exact rfl
+    · subst h; exact rfl
     · exact treeToks_plain cs (d + 1) (l + 1) t h
 theorem treeToks_plain : ∀ (ns : List TNode) (d l : Nat), ∀ t ∈ treeToks d l ns, t.Plain
   | [], d, l, t, ht => by simp [treeToks] at ht
@@ -834,11 +837,11 @@ theorem treeDocToks_plain (name : Str) (nodes : List TNode) : ∀ t ∈ treeDocT
   rw [treeDocToks_eq] at ht
   simp only [List.mem_cons, List.mem_append, List.mem_nil_iff, or_false] at ht
   rcases ht with h | h | h | h | h | h
-  · subst h; exact ⟨rfl, rfl⟩
-  · subst h; exact ⟨rfl, rfl⟩
+  · subst h; exact rfl
+  · subst h; exact rfl
   · exact treeToks_plain nodes 0 2 t h
-  · subst h; exact ⟨rfl, rfl⟩
-  · subst h; exact ⟨rfl, rfl⟩
-  · subst h; exact ⟨rfl, rfl⟩
+  · subst h; exact rfl
+  · subst h; exact rfl
+  · subst h; exact rfl
 
 end Octave
